@@ -155,7 +155,7 @@ class C15(PropBase):
         "possible_bit_flips[].confidence; tied to the code by comparing the model's serialisation byte for byte with the real compact output (those two members "
         "removed, re-rendered by serde_json::to_string) on every case and both build profiles",
         "serde_json's writer is ASSUMED to emit what [serialise] emits; checked on every case, and the model's own parser must accept the real document",
-        "extraction ExtrOcamlBasic; ocaml/c15/main.ml (UTF-8 <-> code points, facts reader); harness/src/bin/c15.rs + c14.rs (dump synthesis, facts printer: "
+        "extraction ExtrOcamlBasic; ocaml/c15/main.ml (facts reader; bytes <-> code points go through the extracted Gallina UTF-8 codec of c15_utf8); harness/src/bin/c15.rs + c14.rs (dump synthesis, facts printer: "
         "string-valued members such as debug ids, versions, crash reasons are read through the same public accessors print_json calls and passed through)",
         "translate/c15_schema.py: a parser of the ```rust,ignore block of json-schema.md (objects, arrays, alternatives, leaf types, the register map notation; the "
         "abbreviated crashing_thread listing must be contained in threads[] and is replaced by it) — aborts on anything else; translate/c15_keys.py: regexes over "
@@ -174,7 +174,7 @@ class C15(PropBase):
         "text": "partial: serde_json's writer is assumed (modelled by a Gallina serialiser that the run compares with the real compact bytes of the whole document on "
                 "every case); soft_errors and the binary32 confidence are outside the model. Theorems (Coq, all values / all process states, both build profiles): "
                 "c15_serialise_parse — parse (serialise v) = Some v for every JSON value over arbitrary code points and integers (escaping total and correct; no raw "
-                "control character); c15_schema_conformance — for every well-formed state the report is produced without trap and conforms to DOC_SCHEMA, the schema "
+                "control character); c15_utf8 — the UTF-8 bytes of every report over Unicode scalar values are accepted by a strict decoder and decode to the serialised code points; c15_schema_conformance — for every well-formed state the report is produced without trap and conforms to DOC_SCHEMA, the schema "
                 "tree translate/c15_schema.py regenerates from json-schema.md on every run: every member name at every level documented and unique, every value of the "
                 "documented type or null, every enumeration string documented, every hex string 0x + 1..16 lower-case digits; c15_address_widths — every Address-valued "
                 "member of the whole report is padded to the state's pointer width (16 digits for 64-bit / unknown, >= 8 for 32-bit, exactly 8 below 2^32: c15_hex_width); "
